@@ -369,3 +369,25 @@ MUTANTS += [
     M("benign-foolscap-adapter-pass-through-callback", STC, _FOOLSCAP_RET,
       _FOOLSCAP_D + "        def _answered(res):\n            return res\n        d.addCallback(_answered)\n        return d\n", None),
 ]
+
+# ---- "refactor with a slip" C12-I (layout.py helpers checkstring_to_testvs / make_tw_vectors), seen through the
+# adopted C12 clauses (C47.9.*); the edits are shared with the C12 self-test
+from .C12 import tw_helper_refactor as _twh
+
+MUTANTS += [
+    _twh("benign-refactor-tw-vector-helpers-faithful", None),
+    _twh("refactor-tw-vector-helpers-fallback-only-for-none", "C47.9", fallback_test="testvs is None"),
+    _twh("refactor-tw-vector-helpers-empty-checkstring-vector", "C47.9",
+         cs_body="    return [(0, len(checkstring), checkstring)]"),
+]
+
+# ---- "refactor with a slip" C47-I (publish.py: surprise-share scan in the method _check_for_surprise_shares)
+from .C12 import surprise_helper_refactor as _ssh
+
+MUTANTS += [
+    _ssh("benign-refactor-surprise-scan-helper-faithful", None),
+    _ssh("refactor-surprise-scan-helper-flag-assigned", ["C47.6", "C47.9"],
+         call="        self.surprised = self._check_for_surprise_shares(writer, read_data, lp)\n\n"),
+    _ssh("refactor-surprise-scan-helper-result-dropped", "C47.9",
+         call="        self._check_for_surprise_shares(writer, read_data, lp)\n\n"),
+]
